@@ -99,6 +99,17 @@ claim("C09", "exploration",
       "One interpreter hosts both peers; 'not yet imported' is simulated by a class naming an importable module.",
       "DESIGN.md §4 C09")
 
+claim("C06", "exploration",
+      "exhaustive enumeration of the stated decision grid (2^7 switches x 4 prefixes x 17 name classes x 4 object shapes x "
+      "7 operations) against a decision function transcribed from the statement, observed by effect; Hypothesis samples "
+      "end-to-end through netrefs; Hypothesis histories for cross-connection isolation",
+      "The finite grid named in the property is enumerated completely in both tiers (evidence sets exhaustive for it) "
+      "through the real handler table; effects are observed with per-slot sentinels and full state snapshots. "
+      "Objects with their own hooks (every subset), restricted() views and Service instances are enumerated on a "
+      "sample of configurations; isolation between connections is a generated-history check.",
+      "Names outside the 17 classes and prefixes outside the 4 are not covered; hasattr() on a twin property is not an effect.",
+      "DESIGN.md §4 C06")
+
 NOT_YET = "check not built yet in this revision (see DESIGN.md §8 build order)"
 
 
